@@ -54,7 +54,10 @@ func checkResultShape(r *Run, prog *Program, a *Anchors, fn *ssa.Function, pfx s
 		case vNil && ec == "nil" && fn == a.CreateFi:
 			// only for the empty expression
 			emp := &Sym{K: sCmp, Op: token.EQL, A: paramSym(fn.Params[0]), B: &Sym{K: sConst, C: constant.MakeString("")}}
+			emp2 := &Sym{K: sCmp, Op: token.EQL, A: &Sym{K: sLen, A: paramSym(fn.Params[0])}, B: &Sym{K: sConst, C: constant.MakeInt64(0)}}
 			if t, known := evalBool(sm.St, emp); known && t {
+				ok = true
+			} else if t, known := evalBool(sm.St, emp2); known && t {
 				ok = true
 			} else {
 				why += "; the nil Filter with a nil error is only documented for the empty expression"
@@ -79,6 +82,7 @@ func checkCreateEvaluator(r *Run, prog *Program, a *Anchors, ga *GA, pfx string)
 	fn := a.CreateEv
 	// every path: exactly one call to grammar.Parse, bytes = []byte(expression), error returned as is
 	ps := NewPathSim(prog)
+	ps.Inline = func(c *ssa.Function) bool { return bexprHelper(prog, a, c) }
 	sums := ps.Run(fn)
 	pExpr := paramSym(fn.Params[0])
 	for _, sm := range sums {
